@@ -232,7 +232,10 @@ func init() {
 	// nested collections of up to 3 members: their printed form must not depend on the insertion order at any level
 	dom["TOSTR_NESTED"] = []string{"{1, 2}", "{1, 2, 3}", "{{1, 3}, {2}}", "{{1, 2, 3}, {2}, {1, 3}}", "[a |-> 1, b |-> 2]",
 		"[a |-> {1, 2}, b |-> <<{2, 3}>>]", "(0 :> 1 @@ 1 :> 2 @@ 2 :> 3)", "<<{1, 2}, {2, 3}>>", "{[a |-> 1, b |-> 2], [a |-> 2, b |-> 1]}",
-		"{<<1, 2>>, <<2, 1>>, <<>>}", "({1, 2} :> {3, 4})", `{"b", "a", "c"}`}
+		"{<<1, 2>>, <<2, 1>>, <<>>}", "({1, 2} :> {3, 4})", `{"b", "a", "c"}`,
+		// members whose printed forms order differently from their values (digit count, sign)
+		"{2, 10}", "{9, 10, 11}", "{(-1), (-2)}", "{(-2), 3, 10}", "{{2}, {10}}", "{{1, 10}, {2}}", "<<10, 2>>", "{<<2>>, <<10>>}",
+		"{<<10, 1>>, <<2, 3>>, <<9>>}", "(10 :> 0 @@ 2 :> 1)", "[a |-> {10, 2}]", "{{(-1)}, {(-2)}, {}}", "{TRUE, FALSE}"}
 	add(&opDef{Name: "ToString", Tmpl: "ToString(%s)", Sigs: [][]string{{"ANY"}, {"TOSTR_NESTED"}}, Need: []string{"any"}, ToStr: true,
 		Go: func(a []tla.Value) tla.Value { return tla.ModuleToString(a[0]) }})
 
@@ -409,6 +412,40 @@ func init() {
 		nested(l, "QSET_REC", "R")
 	}
 	nested(lam{"TRUE", func(x []tla.Value) tla.Value { return tla.ModuleTRUE }}, "QSET_FN", "F")
+	// candidates whose printed forms order differently from the values themselves ("10" < "2", "-1" < "-2"):
+	// CHOOSE is TLC's least element in the order of VALUES
+	dom["QSET_NUM"] = []string{"{2, 10}", "{9, 10, 11}", "{(-1), (-2)}", "{(-2), 3, 10}", "{10, 100, 9}"}
+	dom["QSET_NUMSET"] = []string{"{{2}, {10}}", "{{1, 10}, {2}}", "{{10}, {2, 3}, {9}}", "{{(-1)}, {(-2)}}", "{{2, 10}, {9, 10}}"}
+	dom["QSET_NUMTUP"] = []string{"{<<2>>, <<10>>}", "{<<10, 1>>, <<2, 3>>, <<9>>}", "{<<(-1)>>, <<(-2)>>}", "{<<1, 10>>, <<1, 2>>}"}
+	dom["QSET_NUMFN"] = []string{"{(0 :> 10), (0 :> 2)}", "{(10 :> 0), (2 :> 0)}", "{(0 :> 10 @@ 1 :> 1), (0 :> 9 @@ 1 :> 2), (0 :> 10 @@ 1 :> 0)}"}
+	dom["QSET_NUMREC"] = []string{"{[a |-> 10], [a |-> 2], [a |-> 9]}", "{[a |-> 1, b |-> 10], [a |-> 1, b |-> 2]}"}
+	ten := tla.MakeNumber(10)
+	tt := lam{"TRUE", func(x []tla.Value) tla.Value { return tla.ModuleTRUE }}
+	for _, l := range []lam{tt,
+		{"x > 2", func(x []tla.Value) tla.Value { return tla.ModuleGreaterThanSymbol(x[0], two) }},
+		{"x < 10", func(x []tla.Value) tla.Value { return tla.ModuleLessThanSymbol(x[0], ten) }},
+		{"x # 10", func(x []tla.Value) tla.Value { return tla.ModuleNotEqualsSymbol(x[0], ten) }},
+	} {
+		nested(l, "QSET_NUM", "D")
+	}
+	for _, l := range []lam{tt,
+		{"Cardinality(x) = 1", func(x []tla.Value) tla.Value { return tla.ModuleEqualsSymbol(tla.ModuleCardinality(x[0]), one) }},
+		{`10 \in x`, func(x []tla.Value) tla.Value { return tla.ModuleInSymbol(ten, x[0]) }},
+	} {
+		nested(l, "QSET_NUMSET", "DS")
+	}
+	for _, l := range []lam{tt,
+		{"Len(x) = 1", func(x []tla.Value) tla.Value { return tla.ModuleEqualsSymbol(tla.ModuleLen(x[0]), one) }},
+		{"x[1] > 2", func(x []tla.Value) tla.Value { return tla.ModuleGreaterThanSymbol(x[0].ApplyFunction(one), two) }},
+	} {
+		nested(l, "QSET_NUMTUP", "DT")
+	}
+	nested(tt, "QSET_NUMFN", "DF")
+	for _, l := range []lam{tt,
+		{"x.a > 2", func(x []tla.Value) tla.Value { return tla.ModuleGreaterThanSymbol(x[0].ApplyFunction(tla.MakeString("a")), two) }},
+	} {
+		nested(l, "QSET_NUMREC", "DR")
+	}
 	le := func(x []tla.Value) bool { return tla.ModuleLessThanOrEqualSymbol(x[0], x[1]).AsBool() }
 	add(&opDef{Name: `\A x \in S, y \in T : x <= y`, Key: `\A`, Tmpl: `\A x \in %s, y \in %s : x <= y`, Sigs: [][]string{{"SET_INT", "SET_INT"}}, Need: []string{"set", "set"},
 		Go: func(a []tla.Value) tla.Value { return tla.QuantifiedUniversal([]tla.Value{a[0], a[1]}, le) }})
